@@ -162,4 +162,15 @@ TEXT = {
   "design_ref": "DESIGN.md 5 (C15)", "note": NODE_NOTE,
   "technique": "Coq proof of the task ledger over all node events + differential correspondence on task replies + panic monitor + live cluster driver",
  },
+ "C19": {
+  "level": "Machine-checked proof (Coq, no axioms) of a single-node inductive invariant over the node model: for every history of events (requests with "
+           "any coordinates incl. stale/duplicated/reordered ones, votes, time-outs, tasks, snapshot phases, all leader events, role transitions, "
+           "restarts) the reported fields are ordered (lastApplied <= commit <= lastLog; firstLog-1 <= snapshot <= lastLog; committed config <= "
+           "latest config; latest config = newest configuration entry of log-or-snapshot) and term, commit, lastApplied, snapshot index never "
+           "decrease between two reports of one incarnation. The only assumptions are the environment clauses of InfoInvDefs.env_ok (requests do "
+           "not contradict what the receiver knows committed - which C02 provides -, legal oracle values). Tie: per-event differential execution "
+           "(every event kind, full post-state) + ordering monitor on every real node after every event.",
+  "design_ref": "DESIGN.md 5 (C19)", "note": NODE_NOTE,
+  "technique": "Coq inductive invariant over all node events + per-event differential correspondence + ordering monitor",
+ },
 }
